@@ -135,10 +135,18 @@ pub fn kind_of(status: &DeletionStatus) -> u8 {
 }
 
 pub fn addr_of(cfg: &E1Config, p: usize) -> SocketAddr {
-    if cfg.ipv6 {
-        SocketAddr::new(IpAddr::V6(Ipv6Addr::new(0xfd00, 0, 0, 0, 0, 0, 0, 1 + p as u16)), 7000 + p as u16)
-    } else {
-        SocketAddr::new(IpAddr::V4(Ipv4Addr::new(10, 0, 0, 1 + p as u8)), 7000 + p as u16)
+    let port = 7000 + p as u16;
+    match cfg.addr_kind {
+        1 => SocketAddr::new(IpAddr::V6(Ipv4Addr::new(10, 0, 0, 1 + p as u8).to_ipv6_mapped()), port),
+        2 => SocketAddr::new(IpAddr::V6(Ipv6Addr::new(0xfe80, 0xffff, 0x1234, 0xabcd, 0x8000, 0x7fff, 0xff00, 0x100 + p as u16)), port),
+        3 => SocketAddr::new(IpAddr::V4(Ipv4Addr::new(255, 255, 255, 250 - p as u8)), if p == 0 { 65_535 } else { p as u16 }),
+        _ => {
+            if cfg.ipv6 {
+                SocketAddr::new(IpAddr::V6(Ipv6Addr::new(0xfd00, 0, 0, 0, 0, 0, 0, 1 + p as u16)), port)
+            } else {
+                SocketAddr::new(IpAddr::V4(Ipv4Addr::new(10, 0, 0, 1 + p as u8)), port)
+            }
+        }
     }
 }
 
